@@ -861,6 +861,248 @@ Section Replies.
 End Replies.
 
 (* ---------------------------------------------------------------------------------------------- *)
+(* Part 2: a request's steps run without interruption = Storage.step                                *)
+(* ---------------------------------------------------------------------------------------------- *)
+Lemma remove_remove {V} (m : amap V) k : remove (remove m k) k = remove m k.
+Proof.
+  unfold remove. induction m as [|[k0 v] r IH]; cbn; [reflexivity|].
+  destruct (k0 =? k) eqn:E; cbn; [exact IH|]. rewrite E. cbn. f_equal. exact IH.
+Qed.
+
+Lemma set_set {V} (m : amap V) k a b : set (set m k a) k b = set m k b.
+Proof. unfold set. f_equal. cbn. rewrite Z.eqb_refl. cbn. apply remove_remove. Qed.
+
+Lemma drop_topic_idem t grp : drop_topic t (drop_topic t grp) = drop_topic t grp.
+Proof. unfold drop_topic. cbn [g_topics g_last]. rewrite remove_remove. reflexivity. Qed.
+
+Lemma updg_as_map {V} (f : V -> V) (Hf : forall v, f (f v) = f v) (pending : list Z) : forall m : amap V,
+  fold_left (fun m g => updg m g f) pending m =
+  map (fun kv => if memz (fst kv) pending then (fst kv, f (snd kv)) else kv) m.
+Proof.
+  induction pending as [|g rest IH]; intros m; cbn [fold_left].
+  - cbn. symmetry. rewrite <- (map_id m) at 2. apply map_ext. intros [k v]. reflexivity.
+  - rewrite IH. unfold updg. rewrite map_map. apply map_ext. intros [k v]. cbn [fst snd memz existsb].
+    destruct (k =? g) eqn:E; cbn [fst snd].
+    + fold (memz k rest). destruct (memz k rest); [rewrite Hf|]; reflexivity.
+    + fold (memz k rest). reflexivity.
+Qed.
+
+Lemma updg_all {V} (f : V -> V) (Hf : forall v, f (f v) = f v) pending (m : amap V) :
+  (forall k, In k (keys m) -> In k pending) ->
+  fold_left (fun m g => updg m g f) pending m = map_vals f m.
+Proof.
+  intros Hall. rewrite updg_as_map by exact Hf. unfold map_vals. apply map_ext_in. intros [k v] Hin. cbn [fst snd].
+  assert (M : memz k pending = true). { apply memz_In. apply Hall. unfold keys. apply in_map_iff. exists (k, v). auto. }
+  rewrite M. reflexivity.
+Qed.
+
+Lemma add_lag_agree r cp : add_lag r cp = Some (add_lag_g r cp).
+Proof.
+  unfold add_lag, add_lag_g. destruct (cp_offsets cp) as [|o os]; [reflexivity|].
+  destruct (somes r) as [|b0 bs]; [reflexivity|]. destruct (last (o :: os) None); reflexivity.
+Qed.
+
+Lemma add_lags_agree tl : forall cps i, add_lags tl i cps = Some (add_lags_g tl i cps).
+Proof.
+  induction cps as [|cp rest IH]; intros i; cbn [add_lags add_lags_g]; [reflexivity|].
+  rewrite IH. destruct (nth_error tl i); [rewrite add_lag_agree|]; reflexivity.
+Qed.
+
+Lemma fetch_lags_agree broker : forall tops, fetch_topics_lags broker tops = Some (fetch_topics_lags_g broker tops).
+Proof.
+  induction tops as [|[t cps] rest IH]; cbn [fetch_topics_lags fetch_topics_lags_g map fst snd]; [reflexivity|].
+  fold (fetch_topics_lags_g broker rest). rewrite IH. destruct (get broker t); [rewrite add_lags_agree|]; reflexivity.
+Qed.
+
+Lemma in_get_nodup {V} (m : amap V) k v : NoDup (keys m) -> In (k, v) m -> get m k = Some v.
+Proof.
+  induction m as [|[k0 v0] r IH]; intros Hn Hin; [destruct Hin|]. cbn in Hn. inversion Hn; subst. cbn.
+  destruct Hin as [E|Hin].
+  - inversion E; subst. rewrite Z.eqb_refl. reflexivity.
+  - destruct (k0 =? k) eqn:E; [|apply IH; assumption]. apply Z.eqb_eq in E. subst k0. exfalso. apply H1.
+    unfold keys. apply in_map_iff. exists (k, v). auto.
+Qed.
+
+Lemma get_in_list {V} (m : amap V) k v : get m k = Some v -> In (k, v) m.
+Proof.
+  induction m as [|[k0 v0] r IH]; cbn; [discriminate|]. destruct (k0 =? k) eqn:E.
+  - intros H. inversion H; subst. apply Z.eqb_eq in E. subst. auto.
+  - intros H. right. apply IH. exact H.
+Qed.
+
+Definition wf_state (st : state) : Prop := forall c cl, get st c = Some cl -> NoDup (keys (cl_consumer cl)).
+
+(* listings are compared as sets (Go map iteration order) *)
+Definition reply_equiv (a b : reply) : Prop :=
+  match a, b with
+  | RStrings l, RStrings l' => forall x, In x l <-> In x l'
+  | _, _ => a = b
+  end.
+
+Lemma reply_equiv_refl a : reply_equiv a a.
+Proof. destruct a; cbn; auto. intros x. tauto. Qed.
+
+Section Refine.
+  Variable cf : config.
+  Variable now : Z.
+  Variable prio : list Z.
+
+  Notation rc := (run_cont cf now true prio).
+
+  Lemma run_delt2 c t : forall pending st cl fuel,
+    get st c = Some cl -> pending <> [] -> (forall g, In g pending -> get (cl_consumer cl) g <> None) ->
+    (length pending < fuel)%nat ->
+    rc fuel st (KDelT2 c t pending) =
+    Some (set st c (mkCluster (remove (cl_broker cl) t) (fold_left (fun m g => updg m g (drop_topic t)) pending (cl_consumer cl))), RNone).
+  Proof.
+    induction pending as [|g rest IH]; intros st cl fuel Hg Hne Hall Hf; [congruence|].
+    destruct fuel as [|fuel]; [cbn in Hf; lia|]. cbn [run_cont exec]. rewrite Hg.
+    destruct (get (cl_consumer cl) g) as [grp|] eqn:Eg; [|exfalso; apply (Hall g); [left; reflexivity | exact Eg]].
+    unfold set_consumer. destruct rest as [|g2 rest2].
+    - destruct fuel as [|fuel]; [cbn in Hf; lia|]. cbn [run_cont exec]. rewrite get_set_eq. cbn [cl_broker cl_consumer fold_left].
+      rewrite set_set. reflexivity.
+    - rewrite (IH _ (mkCluster (cl_broker cl) (updg (cl_consumer cl) g (drop_topic t))) fuel).
+      + cbn [cl_broker cl_consumer fold_left]. rewrite set_set. reflexivity.
+      + apply get_set_eq.
+      + discriminate.
+      + intros g' Hin. cbn [cl_consumer]. apply get_updg_some. apply Hall. right. exact Hin.
+      + cbn in Hf |- *. lia.
+  Qed.
+
+  Lemma run_fort2 c t : forall pending st cl acc fuel,
+    get st c = Some cl -> pending <> [] -> (forall g, In g pending -> get (cl_consumer cl) g <> None) ->
+    (length pending <= fuel)%nat ->
+    rc fuel st (KForTopic2 c t pending acc) =
+    Some (st, RStrings (acc ++ filter (fun g => match get (cl_consumer cl) g with Some grp => has_topic t grp | None => false end) pending)).
+  Proof.
+    induction pending as [|g rest IH]; intros st cl acc fuel Hg Hne Hall Hf; [congruence|].
+    destruct fuel as [|fuel]; [cbn in Hf; lia|]. cbn [run_cont exec]. rewrite Hg.
+    destruct (get (cl_consumer cl) g) as [grp|] eqn:Eg; [|exfalso; apply (Hall g); [left; reflexivity | exact Eg]].
+    cbn [filter]. rewrite Eg. destruct rest as [|g2 rest2].
+    - cbn [filter]. destruct (has_topic t grp); [reflexivity | rewrite app_nil_r; reflexivity].
+    - rewrite (IH st cl _ fuel Hg ltac:(discriminate)); [|intros g' Hin; apply Hall; right; exact Hin | cbn in Hf |- *; lia].
+      destruct (has_topic t grp); [rewrite <- app_assoc|]; reflexivity.
+  Qed.
+
+  Lemma gbo_broker_only cl cons' t p : get_broker_offset (mkCluster (cl_broker cl) cons') t p = get_broker_offset cl t p.
+  Proof. reflexivity. Qed.
+
+  (* the refinement: builder lag's sequential step is what the sectioned handler does when nobody interrupts it *)
+  Theorem run_alone_refines_proof st r :
+    wf_state st ->
+    exists fuel0, forall fuel, (fuel0 <= fuel)%nat ->
+      match Storage.step cf now st r with
+      | Done st' rep => exists rep', run_alone cf now true prio fuel st r = Some (st', rep') /\ reply_equiv rep rep'
+      | Crashed => run_alone cf now true prio fuel st r = None
+      end.
+  Proof.
+    intros Hwf. destruct r; cbn [Storage.step].
+    - (* SetBrokerOffset *)
+      exists 1%nat. intros [|fuel] Hf; [lia|]. unfold run_alone. cbn [start].
+      destruct (get st c) as [cl|] eqn:Eg.
+      + cbn [run_cont exec]. destruct (add_broker_offset cf st c t p cnt off) as [st' rep|] eqn:E; [|reflexivity].
+        exists rep. split; [reflexivity | apply reply_equiv_refl].
+      + unfold add_broker_offset. rewrite Eg. exists RNone. split; reflexivity.
+    - (* SetConsumerOffset *)
+      exists 3%nat. intros [|[|[|fuel]]] Hf; try lia. unfold run_alone, add_consumer_offset. cbn [start].
+      destruct (get st c) as [cl|] eqn:Eg; [|exists RNone; split; reflexivity].
+      destruct (too_old cf now ts); [exists RNone; split; reflexivity|].
+      destruct (negb (cf_accept cf g)); [exists RNone; split; reflexivity|].
+      cbn [run_cont exec]. rewrite Eg. destruct (get_broker_offset cl t p) as [boff cnt] eqn:Eb.
+      destruct (cnt =? 0); [exists RNone; split; reflexivity|].
+      cbn [run_cont exec]. rewrite Eg. unfold set_consumer. cbn [run_cont exec]. rewrite get_set_eq. cbn [cl_consumer cl_broker].
+      unfold ensure_group. rewrite get_set_eq. unfold set_consumer. cbn [cl_consumer cl_broker]. rewrite !set_set. unfold place_commit.
+      destruct (get (cl_consumer cl) g) as [grp|];
+        match goal with |- context [ring_step ?a ?b ?c ?d] => destruct (ring_step a b c d) as [w' app] eqn:Er end;
+        exists RNone; split; reflexivity.
+    - (* SetConsumerOwner *)
+      exists 3%nat. intros [|[|[|fuel]]] Hf; try lia. unfold run_alone, add_consumer_owner. cbn [start].
+      destruct (get st c) as [cl|] eqn:Eg; [|exists RNone; split; reflexivity].
+      destruct (negb (cf_accept cf g)); [exists RNone; split; reflexivity|].
+      cbn [run_cont exec]. rewrite Eg. unfold set_consumer. cbn [run_cont exec]. rewrite get_set_eq.
+      rewrite gbo_broker_only. destruct (get_broker_offset cl t p) as [boff cnt] eqn:Eb.
+      destruct (cnt =? 0).
+      * exists RNone. split; [|reflexivity]. unfold ensure_group. reflexivity.
+      * cbn [run_cont exec]. rewrite get_set_eq. cbn [cl_consumer cl_broker]. unfold ensure_group. rewrite get_set_eq.
+        unfold set_consumer. cbn [cl_consumer cl_broker]. rewrite !set_set.
+        exists RNone. split; [|reflexivity]. unfold place_owner. destruct (get (cl_consumer cl) g); reflexivity.
+    - (* ClearConsumerOwners *)
+      exists 2%nat. intros [|[|fuel]] Hf; try lia. unfold run_alone, clear_consumer_owners. cbn [start].
+      destruct (get st c) as [cl|] eqn:Eg; [|exists RNone; split; reflexivity].
+      destruct (negb (cf_accept cf g)); [exists RNone; split; reflexivity|].
+      cbn [run_cont exec]. rewrite Eg. destruct (get (cl_consumer cl) g) as [grp|] eqn:Egg; [|exists RNone; split; reflexivity].
+      cbn [run_cont exec]. rewrite Eg, Egg. exists RNone. split; reflexivity.
+    - (* DeleteTopic *)
+      unfold delete_topic, run_alone. cbn [start]. destruct (get st c) as [cl|] eqn:Eg; [|exists 0%nat; intros; exists RNone; split; reflexivity].
+      exists (3 + length (visit_order prio (keys (cl_consumer cl))))%nat. intros fuel Hf.
+      destruct fuel as [|fuel]; [lia|]. cbn [run_cont exec]. rewrite Eg.
+      destruct (visit_order prio (keys (cl_consumer cl))) as [|g0 ks] eqn:Ev.
+      + destruct fuel as [|fuel]; [cbn in Hf; lia|]. cbn [run_cont exec]. rewrite Eg. exists RNone. split; [|reflexivity].
+        assert (K : cl_consumer cl = []).
+        { destruct (cl_consumer cl) as [|[k v] r] eqn:Ec; [reflexivity|]. exfalso.
+          assert (In k (visit_order prio (keys ((k, v) :: r)))) by (apply visit_order_all; cbn; auto). rewrite Ev in H. destruct H. }
+        rewrite K. reflexivity.
+      + rewrite (run_delt2 c t (g0 :: ks) st cl fuel Eg ltac:(discriminate)).
+        * exists RNone. split; [|reflexivity]. rewrite updg_all; [reflexivity | apply drop_topic_idem |].
+          intros k Hk. rewrite <- Ev. apply visit_order_all. exact Hk.
+        * intros g Hin. apply in_keys_get. apply (visit_order_sub prio). rewrite Ev. exact Hin.
+        * cbn in Hf |- *. lia.
+    - (* DeleteGroup *)
+      exists 2%nat. intros [|[|fuel]] Hf; try lia. unfold run_alone, delete_group. cbn [start].
+      destruct (get st c) as [cl|] eqn:Eg; [|exists RNone; split; reflexivity].
+      cbn [run_cont exec]. rewrite Eg. destruct (get (cl_consumer cl) g) as [grp|] eqn:Egg; [|exists RNone; split; reflexivity].
+      destruct (t =? 0); [exists RNone; split; reflexivity|].
+      cbn [run_cont exec]. rewrite Eg, Egg. destruct (remove (g_topics grp) t); exists RNone; split; reflexivity.
+    - (* FetchClusters *)
+      exists 0%nat. intros fuel _. unfold run_alone. cbn [start]. eexists. split; [reflexivity | apply reply_equiv_refl].
+    - (* FetchConsumers *)
+      exists 1%nat. intros [|fuel] Hf; [lia|]. unfold run_alone. cbn [start].
+      destruct (get st c) as [cl|] eqn:Eg; [|exists RNil; split; reflexivity].
+      cbn [run_cont exec]. rewrite Eg. eexists. split; [reflexivity | apply reply_equiv_refl].
+    - (* FetchTopics *)
+      exists 1%nat. intros [|fuel] Hf; [lia|]. unfold run_alone. cbn [start].
+      destruct (get st c) as [cl|] eqn:Eg; [|exists RNil; split; reflexivity].
+      cbn [run_cont exec]. rewrite Eg. eexists. split; [reflexivity | apply reply_equiv_refl].
+    - (* FetchConsumer *)
+      exists 3%nat. intros [|[|[|fuel]]] Hf; try lia. unfold run_alone, fetch_consumer. cbn [start].
+      destruct (get st c) as [cl|] eqn:Eg; [|exists RNil; split; reflexivity].
+      cbn [run_cont exec]. rewrite Eg. destruct (get (cl_consumer cl) g) as [grp|] eqn:Egg; [|exists RNil; split; reflexivity].
+      destruct (expired cf now (g_last grp)).
+      + cbn [run_cont exec]. rewrite Eg. exists RNil. split; reflexivity.
+      + cbn [run_cont exec]. rewrite Eg, Egg. cbn [run_cont exec]. rewrite Eg.
+        fold (snapshot_group grp). rewrite fetch_lags_agree. eexists. split; [reflexivity | reflexivity].
+    - (* FetchTopic *)
+      exists 1%nat. intros [|fuel] Hf; [lia|]. unfold run_alone. cbn [start].
+      destruct (get st c) as [cl|] eqn:Eg.
+      + cbn [run_cont exec]. destruct (fetch_topic st c t) as [st' rep|] eqn:E; [|exfalso; exact (fetch_topic_no_crash _ _ _ E)].
+        exists rep. split; [reflexivity | apply reply_equiv_refl].
+      + unfold fetch_topic. rewrite Eg. exists RNil. split; reflexivity.
+    - (* FetchConsumersForTopic *)
+      unfold fetch_consumers_for_topic, run_alone. cbn [start]. destruct (get st c) as [cl|] eqn:Eg; [|exists 0%nat; intros; exists RNil; split; reflexivity].
+      exists (2 + length (visit_order prio (keys (cl_consumer cl))))%nat. intros fuel Hf.
+      destruct fuel as [|fuel]; [lia|]. cbn [run_cont exec]. rewrite Eg.
+      pose proof (Hwf c cl Eg) as Hnd.
+      destruct (visit_order prio (keys (cl_consumer cl))) as [|g0 ks] eqn:Ev.
+      + eexists. split; [reflexivity|]. cbn. intros x. split; [intros []|]. intros Hin.
+        apply in_map_iff in Hin. destruct Hin as ([k v] & <- & Hf2). apply filter_In in Hf2. destruct Hf2 as [Hin _].
+        assert (In k (visit_order prio (keys (cl_consumer cl)))) by (apply visit_order_all; unfold keys; apply in_map_iff; exists (k, v); auto).
+        rewrite Ev in H. destruct H.
+      + rewrite (run_fort2 c t (g0 :: ks) st cl [] fuel Eg ltac:(discriminate)).
+        * eexists. split; [reflexivity|]. cbn [reply_equiv app]. intros x. rewrite <- Ev. split.
+          -- intros Hin. apply in_map_iff in Hin. destruct Hin as ([k v] & <- & Hf2). apply filter_In in Hf2. destruct Hf2 as [Hin Hhas].
+             cbn [fst snd] in *. apply filter_In. split.
+             ++ apply visit_order_all. unfold keys. apply in_map_iff. exists (k, v). auto.
+             ++ rewrite (in_get_nodup _ _ _ Hnd Hin). unfold has_topic. exact Hhas.
+          -- intros Hin. apply filter_In in Hin. destruct Hin as [_ Hhas].
+             destruct (get (cl_consumer cl) x) as [grp|] eqn:Egx; [|discriminate].
+             apply in_map_iff. exists (x, grp). split; [reflexivity|]. apply filter_In. split; [apply get_in_list; exact Egx|].
+             cbn [snd]. unfold has_topic in Hhas. exact Hhas.
+        * intros g Hin. apply in_keys_get. apply (visit_order_sub prio). rewrite Ev. exact Hin.
+        * cbn in Hf |- *. lia.
+  Qed.
+End Refine.
+
+(* ---------------------------------------------------------------------------------------------- *)
 (* Part 3: witnesses                                                                               *)
 (* ---------------------------------------------------------------------------------------------- *)
 Definition w_cf : config := mkConfig 2 100000 0 (fun _ => true).
